@@ -218,28 +218,21 @@ func equal(lhsV, rhsV reflect.Value) bool {
 	}
 
 	// Compare a string and a number.
-	// This will attempt to convert the string to a number,
-	// while leaving the other side alone. Code further
-	// down takes care of converting ints and floats as needed.
+	// This will attempt to convert the string to a number, the same way on
+	// both sides, while leaving the other side alone. Code further
+	// down takes care of comparing ints and floats as needed.
 	if isNum(lhsV) && rhsV.Kind() == reflect.String {
-		rhsF, err := tryToFloat64(rhsV)
+		var err error
+		rhsV, err = stringToNumber(rhsV)
 		if err != nil {
-			// Couldn't convert RHS to a float, they can't be compared.
+			// Couldn't convert RHS to a number, they can't be compared.
 			return false
 		}
-		rhsV = reflect.ValueOf(rhsF)
 	} else if lhsV.Kind() == reflect.String && isNum(rhsV) {
-		// If the LHS is a string formatted as an int, try that before trying float
-		lhsI, err := tryToInt64(lhsV)
+		var err error
+		lhsV, err = stringToNumber(lhsV)
 		if err != nil {
-			// if LHS is a float, e.g. "1.2", we need to set lhsV to a float64
-			lhsF, err := tryToFloat64(lhsV)
-			if err != nil {
-				return false
-			}
-			lhsV = reflect.ValueOf(lhsF)
-		} else {
-			lhsV = reflect.ValueOf(lhsI)
+			return false
 		}
 	}
 
@@ -255,9 +248,13 @@ func equal(lhsV, rhsV reflect.Value) bool {
 		if lhsKind == rhsKind {
 			return toFloat64(lhsV) == toFloat64(rhsV)
 		}
-		// mixed types: use string representation for compatibility
-		// (e.g. float32(1.1) should equal float64(1.1))
-		return numToString(lhsV) == numToString(rhsV)
+		if lhsIsFloat && rhsIsFloat {
+			// float32 and float64: use string representation for compatibility
+			// (e.g. float32(1.1) should equal float64(1.1))
+			return numToString(lhsV) == numToString(rhsV)
+		}
+		// integer and float: compare as float64, the same way <= and >= do
+		return toFloat64(lhsV) == toFloat64(rhsV)
 	}
 
 	// Try to compare bools to strings and numbers
@@ -274,6 +271,20 @@ func equal(lhsV, rhsV reflect.Value) bool {
 	}
 
 	return reflect.DeepEqual(lhsV.Interface(), rhsV.Interface())
+}
+
+// stringToNumber converts a string formatted as a number to an int64 value
+// if it is formatted as an integer, otherwise to a float64 value, e.g. "1.2".
+func stringToNumber(v reflect.Value) (reflect.Value, error) {
+	i, err := tryToInt64(v)
+	if err == nil {
+		return reflect.ValueOf(i), nil
+	}
+	f, err := tryToFloat64(v)
+	if err != nil {
+		return v, err
+	}
+	return reflect.ValueOf(f), nil
 }
 
 // isHashable returns true if the value can be used as a map key without
